@@ -255,9 +255,12 @@ def verus_unit(name, cfg, repo, build, tier):
         vrun = run_verus(vpath, cfg.get('rlimit', 30))
         vp = parse_verus(vrun, vtext, blocks, linemap)
         failed_blocks = {d['block'] for d in vp['diags']}
-        fnblocks = [i for i, b in enumerate(blocks) if b['kind'] == 'FN']
+        # functions declared `never_called=1` have the precondition `false` BY DESIGN (the `unreachable!()` setters of the node
+        # kinds that carry no such stamp): their bodies are unreachable, which is exactly what their contract says
+        fnblocks = [i for i, b in enumerate(blocks) if b['kind'] == 'FN' and not b.get('never_called')]
+        never = [blocks[i]['owner'] + '::' + blocks[i]['name'] for i, b in enumerate(blocks) if b['kind'] == 'FN' and b.get('never_called')]
         missing = [blocks[i]['owner'] + '::' + blocks[i]['name'] for i in fnblocks if i not in failed_blocks]
-        r['vacuity'] = dict(functions=len(fnblocks), reachable=len(fnblocks) - len(missing), vacuous=missing, wall=vrun['wall'])
+        r['vacuity'] = dict(functions=len(fnblocks), reachable=len(fnblocks) - len(missing), vacuous=missing, never_called_by_contract=never, wall=vrun['wall'])
         if vp['status'] != 'ok':
             r['vacuity'] = dict(functions=len(fnblocks), reachable=None, vacuous=[], wall=vrun['wall'], note='vacuity variant undecided: ' + vp['reason'])
         elif missing:
